@@ -35,7 +35,8 @@ KEY_FREE = "C08:implicitfast:childless-free-body-rne-derivative"
 KEY_RKTIME = "C08:rk4:stage-time-not-advanced"
 # keys of findings that are still open in /repo (KEY_SIGN and KEY_RKTIME were repaired; their directed
 # witnesses stay as regression cases and count as NEW failing inputs if they fail again)
-CLASSIFIED = (KEY_FREE,)
+KEY_BALLWRAP = "C08:forward-actuation:ball-joint-servo-error-wrap"
+CLASSIFIED = (KEY_FREE, KEY_BALLWRAP)
 
 F = vlib.fhex
 FL = vlib.flist
@@ -389,13 +390,20 @@ def correspondence(res, quick):
 
   rng = np.random.default_rng(vlib.seed() + 8)
   n = 1 if quick else 8
-  groups = [
-    ("_next_position", cases_next_position(rng, 120 * n)),
-    ("_next_velocity", cases_next_velocity(rng, 40 * n)),
-    ("_next_activation", cases_next_activation(rng, 120 * n)),
-    ("_rk_accumulate/_rk_stage_time/_next_time", cases_rk_accumulate_time(rng, 30 * n)),
-    ("host _advance/euler/rungekutta4 with affine forward", cases_host(rng, 32 * n)),
+  specs = [
+    ("_next_position", cases_next_position, 120 * n),
+    ("_next_velocity", cases_next_velocity, 40 * n),
+    ("_next_activation", cases_next_activation, 120 * n),
+    ("_rk_accumulate/_rk_stage_time/_next_time", cases_rk_accumulate_time, 30 * n),
+    ("host _advance/euler/rungekutta4 with affine forward", cases_host, 32 * n),
   ]
+  groups = []
+  for g, fn, cnt in specs:
+    try:
+      groups.append((g, fn(rng, cnt)))
+    except Exception as e:  # kernel signature / host API changed: this group can no longer be launched
+      res.obligation(f"correspondence Model/Integrate.v vs real {g}", False, f"cannot launch the real code with the modelled argument list: {type(e).__name__}: {str(e)[:300]}")
+      res.extra.setdefault("correspondence_unlaunchable", []).append(g)
   lines = [l for _, (ls, _) in groups for l in ls]
   metas = [(g, mt) for g, (_, ms) in groups for mt in ms]
   verdicts = tvalid.run_cases("C08", ["Gen.math", "Model.Integrate"], lines, chunk=60, extra_defs=HOST_DEFS)
@@ -414,6 +422,9 @@ def correspondence(res, quick):
   if metas:
     mt = dict(metas[0][1])
     res.sample({"kind": "correspondence", **{k: mt[k] for k in list(mt)[:8]}})
+  if res.extra.get("correspondence_unlaunchable"):
+    res.extra["_bad"] = bad
+    raise RuntimeError("groups not launchable: " + ", ".join(res.extra["correspondence_unlaunchable"]))
   return bad
 
 
@@ -474,8 +485,10 @@ def lockstep(m, d0, nsteps, ctrl_seq=None):
   if d0.get("history") is not None and m.nhistory:
     d.history[:] = d0["history"]
   mm = mjw.put_model(m)
-  dd = mjw.put_data(m, d)
   contacts = bool(np.any(m.geom_contype != 0))
+  # generous capacities: a run that still reports a capacity overflow is discarded (the property is
+  # about accepted states without overflow; what happens at capacity is C16's subject)
+  dd = mjw.put_data(m, d, nconmax=256, njmax=1024) if contacts else mjw.put_data(m, d)
   for s in range(nsteps):
     if ctrl_seq is not None:
       d.ctrl[:] = ctrl_seq[s]
@@ -485,13 +498,30 @@ def lockstep(m, d0, nsteps, ctrl_seq=None):
     mjw.step(mm, dd)
     if d.warning[mujoco.mjtWarning.mjWARN_BADQACC].number or d.warning[mujoco.mjtWarning.mjWARN_BADQPOS].number or d.warning[mujoco.mjtWarning.mjWARN_BADQVEL].number:
       return "discard", s, "unstable (MuJoCo warning)"
+    ref = np.concatenate([np.asarray(d.qpos), np.asarray(d.qvel), np.asarray(d.qacc), np.asarray(d.act)])
+    if not np.all(np.isfinite(ref)) or (ref.size and float(np.max(np.abs(ref))) > 1e6):
+      return "discard", s, "MuJoCo reference itself non-finite or astronomically large (diverging simulation)"
     if m.nv and float(np.max(np.abs(d.qacc))) > 1e4:
       return "discard", s, "qacc > 1e4 (stiff / ill-conditioned: float32 comparison meaningless)"
+    if int(np.max(dd.overflow.numpy())) != 0:
+      return "discard", s, "MJWarp reports a capacity overflow (C16)"
+    if d.nefc and (int(d.solver_niter[0]) >= int(m.opt.iterations) or int(dd.solver_niter.numpy()[0]) >= int(m.opt.iterations)):
+      return "discard", s, "a constraint solver stopped at the iteration cap (not converged: qacc not comparable)"
     if contacts:
       if int(dd.nacon.numpy()[0]) != int(d.ncon):
         return "discard", s, "contact set differs (state near a contact discontinuity)"
       if d.ncon and float(np.min(np.abs(d.contact.dist))) < 1e-4:
         return "discard", s, "contact distance within 1e-4 of activation"
+      if d.ncon:
+        # the integrators can only be compared on the same constraint problem: contact geometry that
+        # differs (convex-collision tolerance, multi-contact choice, tangent axes of the contact frame - they shape
+        # the pyramidal cone -) is the collision properties' subject (e.g. C20's plane-capsule frame finding)
+        n = int(d.ncon)
+        cw = sorted((tuple(int(x) for x in g), float(di), tuple(float(x) for x in np.asarray(fr).reshape(-1))) for g, di, fr in zip(dd.contact.geom.numpy()[:n], dd.contact.dist.numpy()[:n], dd.contact.frame.numpy()[:n]))
+        cc = sorted((tuple(int(x) for x in g), float(di), tuple(float(x) for x in fr)) for g, di, fr in zip(d.contact.geom, d.contact.dist, d.contact.frame))
+        for a, b_ in zip(cw, cc):
+          if a[0] != b_[0] or abs(a[1] - b_[1]) > 1e-3 * (1 + abs(b_[1])) or float(np.max(np.abs(np.array(a[2]) - np.array(b_[2])))) > 2e-3:
+            return "discard", s, "contact geometry differs between MJWarp and MuJoCo (collision-level disagreement, not an integrator matter)"
     b = cmp_step(m, d, dd, prev, s, 20.0 if (contacts and d.ncon) else 1.0)
     if b:
       return "fail", s, b
@@ -511,9 +541,40 @@ def childless_free_dofs(m):
   return out
 
 
+def ball_servo_wrap_active(m, d0, nsteps):
+  """MuJoCo-only diagnosis: does some affine-bias actuator on a BALL joint produce, at one of the
+  visited states, a force different from gain*ctrl + b0 + b1*length + b2*velocity (MuJoCo 3.13 wraps
+  the servo error of ball-joint transmissions by 2*pi*|gear|)?"""
+  import mujoco
+
+  us = [u for u in range(m.nu) if m.actuator_trntype[u] == mujoco.mjtTrn.mjTRN_JOINT and m.jnt_type[m.actuator_trnid[u, 0]] == mujoco.mjtJoint.mjJNT_BALL
+        and m.actuator_dyntype[u] == 0 and m.actuator_gaintype[u] == 0 and m.actuator_biastype[u] == 1 and m.actuator_biasprm[u, 1] != 0 and not m.actuator_forcelimited[u]]  # fmt: skip
+  if not us:
+    return False
+  d = mujoco.MjData(m)
+  d.qpos[:], d.qvel[:] = d0["qpos"], d0["qvel"]
+  if m.na:
+    d.act[:] = d0["act"]
+  d.ctrl[:] = d0["ctrl"]
+  for _ in range(nsteps):
+    mujoco.mj_forward(m, d)
+    for u in us:
+      c = float(d.ctrl[u])
+      if m.actuator_ctrllimited[u]:
+        c = min(max(c, m.actuator_ctrlrange[u, 0]), m.actuator_ctrlrange[u, 1])
+      plain = m.actuator_gainprm[u, 0] * c + m.actuator_biasprm[u, 0] + m.actuator_biasprm[u, 1] * d.actuator_length[u] + m.actuator_biasprm[u, 2] * d.actuator_velocity[u]
+      if abs(plain - d.actuator_force[u]) > 1e-6 * (1 + abs(plain)):
+        return True
+    mujoco.mj_step(m, d)
+  return False
+
+
 def classify(m, name, d0, nsteps, fails, ctrl_seq=None):
   """Key of a lock-step disagreement."""
   from mujoco_warp._src import derivative
+
+  if ctrl_seq is None and ball_servo_wrap_active(m, d0, nsteps):
+    return KEY_BALLWRAP
 
   fields = [f[0] for f in fails]
   if name == "implicit":
@@ -573,6 +634,46 @@ def directed(res):
       out.append((k, f"{name}: mjw.step disagrees with mujoco.mj_step after 1 step in {b[0][0]} by {b[0][1]:.3g} (bound {b[0][2]:.3g})", {"xml": xml, "integrator": name, "qpos0": d0["qpos"].tolist(), "qvel0": list(qvel0), "steps": 1, "fails": [list(x[:3]) for x in b]}))
     else:
       res.nontrivial(("directed-agrees", key))
+  # position servo on a ball joint with |ctrl - length| > pi*|gear| (forward-level parity gap, C03's subject)
+  xml = '<mujoco><option gravity="0 0 0"/><worldbody><body pos="0 0 1"><joint name="j0" type="ball"/><geom type="sphere" size=".1"/></body></worldbody><actuator><position joint="j0" gear="-1.77 -0.93 0.51 0 0 0" kp="5.6" kv="1.76"/></actuator></mujoco>'
+  m = mujoco.MjModel.from_xml_string(xml)
+  q = np.array([0.0186, -0.3146, -0.0960, 0.1204])
+  d0 = {"qpos": q / np.linalg.norm(q), "qvel": np.zeros(3), "act": np.zeros(0), "ctrl": np.array([-0.5])}
+  st, s, b = lockstep(m, d0, 1)
+  res.count()
+  if st == "fail":
+    out.append((classify(m, "euler", d0, 1, b), f"euler: position servo on a ball joint, ctrl=-0.5, length=6.13: {b[0][0]} differs from mujoco.mj_step by {b[0][1]:.3g} (bound {b[0][2]:.3g})", {"xml": xml, "integrator": "euler", "qpos0": d0["qpos"].tolist(), "qvel0": [0.0, 0.0, 0.0], "ctrl0": [-0.5], "steps": 1, "fails": [list(x[:3]) for x in b]}))
+  else:
+    res.nontrivial(("directed-agrees", KEY_BALLWRAP))
+  # saturated act-limited stateful actuators: the RK4 sub-stages must NOT clamp (limit=False in
+  # _rk_perturb_state, as mj_RungeKutta), the final _advance must; also actearly
+  ACTS = {
+    "intvelocity": ('<intvelocity joint="j" kp="50" actrange="-0.5 0.5"/>', 0.5, 3.0),
+    "integrator": ('<general joint="j" dyntype="integrator" gainprm="20" actlimited="true" actrange="-0.3 0.4"/>', 0.4, 5.0),
+    "filter": ('<general joint="j" dyntype="filter" dynprm="0.05" gainprm="10" actlimited="true" actrange="-0.2 0.2"/>', 0.2, 2.0),
+    "filterexact-actearly": ('<general joint="j" dyntype="filterexact" dynprm="0.05" gainprm="10" actlimited="true" actrange="-0.2 0.2" actearly="true"/>', 0.2, 2.0),
+    "integrator-actearly": ('<general joint="j" dyntype="integrator" gainprm="20" actlimited="true" actrange="-0.3 0.4" actearly="true"/>', 0.4, 5.0),
+  }
+  for integ in ("rk4", "euler", "implicitfast"):
+    for nm, (axml, bound, push) in ACTS.items():
+      for variant, nst in (("at-bound", 1), ("inside-by-h-actdot", 3), ("lower-bound", 2)):
+        xml = f'<mujoco><option timestep="0.01" gravity="0 0 -9.81"/><worldbody><body><joint name="j" type="hinge" axis="0 1 0" damping="0.1"/><geom type="capsule" size=".05 .3" pos="0 0 -.3"/></body></worldbody><actuator>{axml}</actuator></mujoco>'
+        m = mujoco.MjModel.from_xml_string(xml)
+        m.opt.integrator = INTS[integ]
+        lo, hi = m.actuator_actrange[0]
+        if variant == "at-bound":
+          a0, c0 = hi, push
+        elif variant == "inside-by-h-actdot":
+          a0, c0 = hi - 0.5 * 0.01 * push, push
+        else:
+          a0, c0 = lo, -push
+        d0 = {"qpos": np.array([0.3]), "qvel": np.array([0.5]), "act": np.array([np.float32(a0)]), "ctrl": np.array([c0])}
+        st, s, b = lockstep(m, d0, nst)
+        res.count()
+        if st == "fail":
+          out.append((f"C08:directed:{integ}-actlimited-saturated:{b[0][0]}", f"{integ}, {nm} actuator saturated ({variant}): {b[0][0]} differs from mujoco.mj_step by {b[0][1]:.3g} (bound {b[0][2]:.3g}) at step {s}", {"xml": xml, "integrator": integ, "qpos0": [0.3], "qvel0": [0.5], "act0": [float(np.float32(a0))], "ctrl0": [c0], "steps": nst, "fails": [list(x[:3]) for x in b]}))
+        elif st == "ok":
+          res.nontrivial(("directed-actlimited", integ, nm, variant))
   # RK4 with a delayed control (time-dependent forward): regression case of the repaired finding
   # C08:rk4:stage-time-not-advanced; model-level counterpart: C08_rk4_time_dependent_example
   m = mujoco.MjModel.from_xml_string(RK_DELAY_XML)
@@ -617,20 +718,38 @@ def oracle(res, nper):
         plane=contacts,
         limits=0.3 if contacts else 0.0,
       )
+      if contacts:
+        o.geom_types = ("sphere", "capsule", "box")  # analytic narrowphase only: no convex-collision tolerance in the way
       xml, _ = models.random_model(rng, o)
       m = mujoco.MjModel.from_xml_string(xml)
       m.opt.integrator = INTS[name]
+      sat = []
+      for u in range(m.nu):  # stateful actuators: half of them act-limited (the generator has none)
+        if m.actuator_dyntype[u] in (1, 2, 3) and rng.random() < 0.5:
+          m.actuator_actlimited[u] = 1
+          lo = rng.uniform(-0.6, 0.0)
+          m.actuator_actrange[u] = [lo, lo + rng.uniform(0.1, 1.0)]
+          sat.append(u)
       damp_off = k % 2 == 1
       if damp_off:
         m.opt.disableflags |= mujoco.mjtDisableBit.mjDSBL_EULERDAMP
       d = mujoco.MjData(m)
       models.random_state(rng, m, d, unnormalized=(k % 5 == 0), vel_scale=float(10 ** rng.uniform(-1, 0.7)))
+      for u in sat:  # saturated: activation at (or a hair inside) a bound, control pushing outward
+        if rng.random() < 0.7:
+          up = rng.random() < 0.5
+          bnd = m.actuator_actrange[u, 1 if up else 0]
+          d.act[m.actuator_actadr[u]] = np.float32(bnd - (1e-4 if up else -1e-4) * (rng.random() < 0.5))
+          d.ctrl[u] = np.float32((1 if up else -1) * rng.uniform(0.5, 3.0) + (bnd if m.actuator_dyntype[u] != 1 else 0.0))
       d0 = {"qpos": d.qpos.copy(), "qvel": d.qvel.copy(), "act": d.act.copy(), "ctrl": d.ctrl.copy()}
       nsteps = int(rng.integers(1, 6))
       st, s, b = lockstep(m, d0, nsteps)
       res.count()
       stc = stats.setdefault(name, {"ok": 0, "fail": 0, "discard": 0})
       stc[st] += 1
+      if st == "discard":
+        stats.setdefault("discard_reasons", {}).setdefault(str(b)[:60], 0)
+        stats["discard_reasons"][str(b)[:60]] += 1
       if st == "ok":
         res.nontrivial(("oracle", name, k))
         if len(res.samples) < 4 and k == 0:
@@ -660,9 +779,10 @@ def run(res):
   corr_ok = True
   try:
     bad = correspondence(res, quick)
-  except RuntimeError as e:  # case files do not compile any more (model/Gen signature changed)
+  except RuntimeError as e:  # case files do not compile / a kernel cannot be launched any more
     corr_ok = False
-    res.obligation("correspondence case files compile", False, str(e)[-600:])
+    bad = res.extra.pop("_bad", [])
+    res.obligation("correspondence machinery (case files compile, kernels launchable)", False, str(e)[-600:])
   found = directed(res) + oracle(res, 12 if quick else 100)
   seen = set()
   for key, what, data in found:
@@ -680,7 +800,7 @@ def run(res):
     "forward() is abstract in the theorems; its agreement with MuJoCo is other properties' subject and is only exercised here by the oracle",
     "float32 rounding is not modelled (theorems over R; correspondence at binary64 with tolerance 1.2e-4, 2e-3 for 4-stage affine RK4)",
     "DCMOTOR activation dynamics are not modelled (oracle only); sleep tail of _advance not modelled (sleep disabled)",
-    "oracle discards runs MuJoCo flags unstable, |qacc| > 1e4, or whose contact set differs / sits within 1e-4 of activation",
+    "oracle discards runs where the MuJoCo reference is non-finite / > 1e6 / flagged unstable, |qacc| > 1e4, MJWarp reports a capacity overflow, a constraint solver hit its iteration cap, or the contact set differs / sits within 1e-4 of activation; with active contacts all bounds are x20 (both solvers stop at their own tolerance)",
   ]
 
 
